@@ -144,6 +144,8 @@ ALPHABET = ([('rc', c) for c in (1, 2, 3)] + [('rn', c) for c in (1, 2, 3)] + [(
             [('pr', c, acc) for c, acc in ((1, ()), (2, (7,)), (4, ()), (6, (7,)), (5, (7,)))] +
             [('q', c, fl) for c in (2, 4) for fl in ((1, 1, 1), (1, 1, 0), (0, 1, 0), (1, 0, 0), (0, 0, 0), (1, 0, 1))])
 
+PRED_ALPHABET = [('rp', 7), ('rp', 8), ('rs', 7), ('pr', 5, (7,)), ('pr', 5, (8,)), ('pr', 5, (7, 8)), ('pr', 2, (8, 7))]
+
 _drv = None
 
 
@@ -191,6 +193,15 @@ def registry_section(tier, seed):
     for _ in range(n_rand):
         k = rng.randint(5, 25)
         hist.append(tuple(rng.choice(ALPHABET) for _ in range(k)))
+    # overlapping predicates: two predicate tags, values accepted by one, the other, or both, of a class with and without a class printer;
+    # "the first-registered accepting predicate" must not depend on which values were printed before
+    hist_pred = []
+    for n in range(1, (4 if tier == 'quick' else 5) + 1):
+        hist_pred.extend(itertools.product(PRED_ALPHABET, repeat=n))
+    hist.extend(hist_pred)
+    for _ in range(n_rand // 4):
+        k = rng.randint(5, 15)
+        hist.append(tuple(rng.choice(PRED_ALPHABET + ALPHABET[:8]) for _ in range(k)))
     chunks = [hist[i:i + 300] for i in range(0, len(hist), 300)]
     tot = nt = 0
     mism, fails = [], []
@@ -203,7 +214,7 @@ def registry_section(tier, seed):
     stats = {'evaluations': tot, 'distinct_nontrivial': nt, 'exhaustive_length': L, 'alphabet': len(ALPHABET), 'random_histories': n_rand,
              'mismatches': len(mism), 'exhaustive': True,
              'samples': [{'history': [list(o) for o in hist[5000 % len(hist)]]}, {'history': [list(o) for o in hist[-1]]}],
-             'rule': 'all operation sequences of length <= %d over %d operations (register by class / by name / predicate, print instances of A, B(A), D(B,C), M(E,A), E, '
+             'rule': 'all operation sequences of length <= 4 (thorough 5) over two overlapping predicates and values accepted by one, the other or both; all operation sequences of length <= %d over %d operations (register by class / by name / predicate, print instances of A, B(A), D(B,C), M(E,A), E, '
                      'is_registered with 6 flag combinations) on a fresh diamond + multiple-inheritance lattice, plus random histories of length 5-25; '
                      'observed: which printer ran, booleans, ValueError; non-trivial = histories containing a by-name registration and a print' % (L, len(ALPHABET))}
     return stats, mism, fails
